@@ -159,6 +159,127 @@ theorem C04_twoUnsew2_cells (cfg : Cfg X) (m m' : Map X) (l : Nat) (u : Unit)
     subst e1 e1' e2 e3 e4 e5
     exact Or.inr (Or.inr (Or.inr ⟨c1, c2, mv, hV1, hV2⟩))
 
+/-! ## the three degenerate arms of 2-sew (a dart without successor) at cell level -/
+
+/-- the new edge id of a 2-sew -/
+theorem eid_after_link2 {m : Map X} (hwf : WF 3 m) {l r eid : Nat} (hl0 : l ≠ 0) (hr0 : r ≠ 0) (hlr : l ≠ r)
+    (hln : l < m.n) (hrn : r < m.n) (hwf1 : WF 3 (link2 m l r))
+    (heid : run (edgeId2 (X := X) l) (link2 m l r) = (.ok eid, link2 m l r)) : eid = min l r := by
+  have hrl : ¬ r = l := fun hh => hlr hh.symm
+  have hb2 : (link2 m l r).β 2 l = r := by rw [link2_β hwf hln hrn]; simp [hlr, hrl]
+  have hok : (link2 m l r).okβ 2 l = true := (hwf1.toSized.okβ 2 l).2 ⟨by omega, hln⟩
+  unfold edgeId2 at heid
+  simp only [Prog.bind_eq, bind, run_rB, hok, if_true, hb2, hr0, if_false, Prog.pure_eq, run_ret,
+    Prod.mk.injEq, Out.ok.injEq] at heid
+  rw [← heid.1]; exact Nat.min_comm _ _
+
+/-- **C04, 2-sew at cell level, neither dart has a successor**: no vertex cell changes, only the
+    edge storages merge `(l, r)` into `min l r` -/
+theorem C04_twoSew2_cells_free (cfg : Cfg X) (m m' : Map X) (l r : Nat) (u : Unit)
+    (hwf : WF 3 m) (hl : C01.InUse m l) (hr : C01.InUse m r) (hlr : l ≠ r) (hfc : m.fc = 0)
+    (hbl : m.β 1 l = 0) (hbr : m.β 1 r = 0)
+    (h : run (twoSew2 cfg m.n l r) m = (.ok u, m')) :
+    WF 3 (link2 m l r) ∧ SameTopo (link2 m l r) m' ∧
+    (∀ d e, SameCell (g2 (link2 m l r) .vertex) m.n d e ↔ SameCell (g2 m .vertex) m.n d e) ∧
+    MergedIn cfg (eStores cfg) (min l r) l r (link2 m l r) m' := by
+  obtain ⟨hl0, hln, hlu⟩ := hl
+  obtain ⟨hr0, hrn, hru⟩ := hr
+  obtain ⟨m1, eid, hlink, heid, hE⟩ := C04_twoSew2_free cfg m.n l r m m' u hfc hbl hbr h
+  obtain ⟨_, _, h2l, h2r, rfl⟩ := iLinkCore_ok hlink
+  have hwf1 : WF 3 (link2 m l r) := hwf.linkI (by omega) (by omega) hl0 hr0 hlr hln hrn hlu hru h2l h2r
+  have e7 := eid_after_link2 hwf hl0 hr0 hlr hln hrn hwf1 heid
+  subst e7
+  obtain ⟨R, hR, hcells⟩ := vertex_cells_link2 hwf hl0 hr0 hlr hln hrn h2l h2r
+  refine ⟨hwf1, hE.topo, ?_, hE⟩
+  intro d e
+  rw [hcells, if_pos hbl, hR, if_pos hbr]
+
+/-- **C04, 2-sew at cell level, only `r` has a successor**: the cells of `l` and `β1 r` are united,
+    nothing else changes; the new id is the minimum of the two old ids -/
+theorem C04_twoSew2_cells_left (cfg : Cfg X) (m m' : Map X) (l r : Nat) (u : Unit)
+    (hwf : WF 3 m) (hl : C01.InUse m l) (hr : C01.InUse m r) (hlr : l ≠ r) (hfc : m.fc = 0)
+    (hbl : m.β 1 l = 0) (hbr : m.β 1 r ≠ 0)
+    (h : run (twoSew2 cfg m.n l r) m = (.ok u, m')) :
+    WF 3 (link2 m l r) ∧ SameTopo (link2 m l r) m' ∧
+    (∀ d e, SameCell (g2 (link2 m l r) .vertex) m.n d e ↔ United (g2 m .vertex) m.n l (m.β 1 r) d e) ∧
+    cellId (link2 m l r) .vertex l = min (cellId m .vertex l) (cellId m .vertex (m.β 1 r)) ∧
+    (∃ ma, MergedIn cfg (vStores cfg) (cellId (link2 m l r) .vertex l) (cellId m .vertex l)
+        (cellId m .vertex (m.β 1 r)) (link2 m l r) ma ∧
+      MergedIn cfg (eStores cfg) (min l r) l r ma m') := by
+  obtain ⟨hl0, hln, hlu⟩ := hl
+  obtain ⟨hr0, hrn, hru⟩ := hr
+  have han : m.β 1 r < m.n := hwf.range 1 (by omega) r hrn
+  obtain ⟨lv, b1rv, m1, lvn, eid, ma, hlv, hb1rv, hlink, hlvn, heid, hV, hE⟩ :=
+    C04_twoSew2_left cfg m.n l r m m' u hfc hbl hbr h
+  obtain ⟨_, _, h2l, h2r, rfl⟩ := iLinkCore_ok hlink
+  have hwf1 : WF 3 (link2 m l r) := hwf.linkI (by omega) (by omega) hl0 hr0 hlr hln hrn hlu hru h2l h2r
+  have e1 : lv = cellId m .vertex l := run_ok_inj hlv (C03_vertexId2_min hwf hl0 hln).1
+  have e2 : b1rv = cellId m .vertex (m.β 1 r) := run_ok_inj hb1rv (C03_vertexId2_min hwf hbr han).1
+  have e5 : lvn = cellId (link2 m l r) .vertex l :=
+    run_ok_inj hlvn (C03_vertexId2_min hwf1 (m := link2 m l r) hl0 hln).1
+  have e7 := eid_after_link2 hwf hl0 hr0 hlr hln hrn hwf1 heid
+  subst e1 e2 e5 e7
+  obtain ⟨R, hR, hcells⟩ := vertex_cells_link2 hwf hl0 hr0 hlr hln hrn h2l h2r
+  have hcells' : ∀ d e, SameCell (g2 (link2 m l r) .vertex) m.n d e ↔
+      United (g2 m .vertex) m.n l (m.β 1 r) d e := by
+    intro d e; rw [hcells, if_pos hbl, hR, if_neg hbr]
+  refine ⟨hwf1, hV.topo.trans hE.topo, hcells', ?_, ma, hV, hE⟩
+  apply cellId_of_union hwf hwf1 rfl hl0 hln hl0 hln hbr han
+  intro x
+  rw [hcells']
+  constructor
+  · rintro (h1 | ⟨_, h2⟩ | ⟨_, h2⟩)
+    · exact Or.inl h1
+    · exact Or.inr h2
+    · exact Or.inl h2
+  · rintro (h1 | h1)
+    · exact Or.inl h1
+    · exact Or.inr (Or.inl ⟨.refl _, h1⟩)
+
+/-- **C04, 2-sew at cell level, only `l` has a successor**: the cells of `r` and `β1 l` are united,
+    nothing else changes; the new id is the minimum of the two old ids -/
+theorem C04_twoSew2_cells_right (cfg : Cfg X) (m m' : Map X) (l r : Nat) (u : Unit)
+    (hwf : WF 3 m) (hl : C01.InUse m l) (hr : C01.InUse m r) (hlr : l ≠ r) (hfc : m.fc = 0)
+    (hbl : m.β 1 l ≠ 0) (hbr : m.β 1 r = 0)
+    (h : run (twoSew2 cfg m.n l r) m = (.ok u, m')) :
+    WF 3 (link2 m l r) ∧ SameTopo (link2 m l r) m' ∧
+    (∀ d e, SameCell (g2 (link2 m l r) .vertex) m.n d e ↔ United (g2 m .vertex) m.n r (m.β 1 l) d e) ∧
+    cellId (link2 m l r) .vertex r = min (cellId m .vertex (m.β 1 l)) (cellId m .vertex r) ∧
+    (∃ ma, MergedIn cfg (vStores cfg) (cellId (link2 m l r) .vertex r) (cellId m .vertex (m.β 1 l))
+        (cellId m .vertex r) (link2 m l r) ma ∧
+      MergedIn cfg (eStores cfg) (min l r) l r ma m') := by
+  obtain ⟨hl0, hln, hlu⟩ := hl
+  obtain ⟨hr0, hrn, hru⟩ := hr
+  have hbn : m.β 1 l < m.n := hwf.range 1 (by omega) l hln
+  obtain ⟨b1lv, rv, m1, rvn, eid, ma, hb1lv, hrv, hlink, hrvn, heid, hV, hE⟩ :=
+    C04_twoSew2_right cfg m.n l r m m' u hfc hbl hbr h
+  obtain ⟨_, _, h2l, h2r, rfl⟩ := iLinkCore_ok hlink
+  have hwf1 : WF 3 (link2 m l r) := hwf.linkI (by omega) (by omega) hl0 hr0 hlr hln hrn hlu hru h2l h2r
+  have e1 : b1lv = cellId m .vertex (m.β 1 l) := run_ok_inj hb1lv (C03_vertexId2_min hwf hbl hbn).1
+  have e2 : rv = cellId m .vertex r := run_ok_inj hrv (C03_vertexId2_min hwf hr0 hrn).1
+  have e5 : rvn = cellId (link2 m l r) .vertex r :=
+    run_ok_inj hrvn (C03_vertexId2_min hwf1 (m := link2 m l r) hr0 hrn).1
+  have e7 := eid_after_link2 hwf hl0 hr0 hlr hln hrn hwf1 heid
+  subst e1 e2 e5 e7
+  obtain ⟨R, hR, hcells⟩ := vertex_cells_link2 hwf hl0 hr0 hlr hln hrn h2l h2r
+  have hR' : ∀ d e, SameCell (g2 m .vertex) m.n d e ↔ R d e := by
+    intro d e; rw [hR, if_pos hbr]
+  have hcells' : ∀ d e, SameCell (g2 (link2 m l r) .vertex) m.n d e ↔
+      United (g2 m .vertex) m.n r (m.β 1 l) d e := by
+    intro d e; rw [hcells, if_neg hbl, united_congr hR']
+  refine ⟨hwf1, hV.topo.trans hE.topo, hcells', ?_, ma, hV, hE⟩
+  apply cellId_of_union hwf hwf1 rfl hr0 hrn hbl hbn hr0 hrn
+  intro x
+  rw [hcells']
+  constructor
+  · rintro (h1 | ⟨_, h2⟩ | ⟨_, h2⟩)
+    · exact Or.inr h1
+    · exact Or.inl h2
+    · exact Or.inr h2
+  · rintro (h1 | h1)
+    · exact Or.inr (Or.inl ⟨.refl _, h1⟩)
+    · exact Or.inl h1
+
 /-! non-vacuity: the two triangles of C01 glued along 2|4 (`glued`), then 2-unsewn at dart 2 -/
 def reopened : Map Val := (run (twoUnsew2 (stdCfg 3 7) 9 2) glued).2
 
@@ -170,5 +291,21 @@ example : cellId glued .vertex 2 = 2 ∧ cellId glued .vertex 4 = 3 ∧
     cellId (unlink2 glued 2) .vertex 3 = 3 ∧ cellId (unlink2 glued 2) .vertex 4 = 4 := by decide +kernel
 example : reopened.att 0 2 ≠ none ∧ reopened.att 0 5 ≠ none ∧ reopened.att 0 3 ≠ none ∧ reopened.att 0 4 ≠ none := by
   decide +kernel
+
+/-- degenerate arms on a 6-dart map with the open chains 1→2 and 3→4 and the free darts 5, 6:
+    `sew 2 5 6` (free arm), `sew 2 5 3` (left arm: only r = 3 has a successor), `sew 2 1 5` (right arm) -/
+def chains : Map Val :=
+  { (Map.empty 3 6 7 : Map Val) with
+    b := #[#[0, 0, 1, 0, 3, 0, 0], #[0, 2, 0, 4, 0, 0, 0], #[0, 0, 0, 0, 0, 0, 0]]
+    a := (Map.empty 3 6 7 : Map Val).a.setIfInBounds 0
+      #[none, some (.pt 0 0 0), some (.pt 1 0 0), some (.pt 0 1 0), some (.pt 0 2 0), some (.pt 2 0 0), some (.pt 1 1 0)] }
+
+example : WF 3 chains ∧ chains.fc = 0 ∧ chains.n = 7 ∧ chains.β 1 1 = 2 ∧ chains.β 1 3 = 4 ∧ chains.β 1 5 = 0 := by
+  decide +kernel
+example : (run (twoSew2 (stdCfg 3 0) chains.n 5 6) chains).1 = .ok () ∧
+    (run (twoSew2 (stdCfg 3 0) chains.n 5 3) chains).1 = .ok () ∧
+    (run (twoSew2 (stdCfg 3 0) chains.n 1 5) chains).1 = .ok () := by decide +kernel
+example : cellId (link2 chains 5 3) .vertex 5 = 4 ∧ cellId chains .vertex 5 = 5 ∧ cellId chains .vertex 4 = 4 ∧
+    cellId (link2 chains 1 5) .vertex 5 = 2 := by decide +kernel
 
 end HC.C04
